@@ -518,6 +518,7 @@ def generate(src: Path) -> dict[str, str]:
         gl = "".join(f"-- guard {k}: {g}\n" for k, gs in guards.items() if SIGS[k]["mod"] == mod for g in gs)
         files[mod] = hdr + "\n".join(parts) + "\n" + gl + "end Gen\n"
     files["Utils"] = generate_utils(src)
+    files["Config"] = generate_config(src)
     return files
 
 
@@ -785,9 +786,9 @@ def entry_rows(mods: dict[str, ast.Module]) -> tuple[list[str], list[str]]:
     # set_config validates every keyword through auto_check(value, name); config_context calls set_config
     try:
         sc = find(mods, "config.set_config")
-        loop_ok = any(isinstance(n, ast.For) and any(is_call_to(c, "auto_check") and len(c.args) == 2
-                                                     and all(isinstance(a, ast.Name) for a in c.args)
-                                                     for c in ast.walk(n)) for n in ast.walk(sc))
+        loop_ok = any(isinstance(n, (ast.For, ast.DictComp)) and any(
+            is_call_to(c, "auto_check") and len(c.args) == 2 and all(isinstance(a, ast.Name) for a in c.args)
+            for c in ast.walk(n)) for n in ast.walk(sc))
         if loop_ok:
             for a in sc.args.kwonlyargs:
                 rows.append(f"  {{ entry := \"set_config\", param := \"{a.arg}\", kind := CheckKind.auto \"{a.arg}\" }}")
@@ -822,6 +823,108 @@ def generate_utils(src: Path) -> str:
             + ",\n".join(f"  (\"{d.split()[1][5:]}\", {d.split()[1]})" for d in args_defs) + "\n]\n\n"
             "-- (entry point, parameter) ↦ check applied, extracted from the constructors / functions\n"
             "def entryTable : List EntryRow := [\n" + ",\n".join(rows) + "\n]\n\nend Gen\n")
+
+
+# ------------------------------------------------------------------------------------------
+# config.py  ->  Gen/Config.lean : the three structural choices the scoping properties rest on
+# ------------------------------------------------------------------------------------------
+def _is_global_cfg(e: ast.expr) -> bool:
+    return isinstance(e, ast.Name) and e.id == "_global_config"
+
+
+def generate_config(src: Path) -> str:
+    mod = ast.parse((src / "config.py").read_text())
+    mods = {"config": mod}
+    sc = find(mods, "config.set_config")
+    cc = find(mods, "config.config_context")
+    gc = find(mods, "config.get_config")
+
+    # --- set_config: validate-all-then-write, or validate-and-write one option at a time
+    writes_in_loop = False
+    for n in ast.walk(sc):
+        if isinstance(n, ast.For):
+            for m in ast.walk(n):
+                if isinstance(m, ast.Assign) and any(isinstance(t, ast.Subscript) and _is_global_cfg(t.value)
+                                                     for t in m.targets):
+                    writes_in_loop = True
+                if isinstance(m, ast.Call) and isinstance(m.func, ast.Attribute) and _is_global_cfg(m.func.value):
+                    writes_in_loop = True
+    body = [st for st in sc.body if not (isinstance(st, ast.Expr) and isinstance(st.value, ast.Constant))]
+    comp_validates = any(isinstance(n, (ast.DictComp, ast.ListComp, ast.GeneratorExp))
+                         and any(is_call_to(c, "auto_check") for c in ast.walk(n)) for n in ast.walk(sc))
+    final_update = (body and isinstance(body[-1], ast.Expr) and isinstance(body[-1].value, ast.Call)
+                    and isinstance(body[-1].value.func, ast.Attribute) and body[-1].value.func.attr == "update"
+                    and _is_global_cfg(body[-1].value.func.value))
+    skips_none = any(isinstance(n, ast.Compare) and isinstance(n.ops[0], ast.IsNot) and isinstance(n.left, ast.Name)
+                     and n.left.id == "value" for n in ast.walk(sc))
+    if not skips_none:
+        raise Unsupported("set_config: `value is not None` filter not found")
+    if writes_in_loop and not comp_validates:
+        validate_first = False
+    elif comp_validates and final_update and not writes_in_loop:
+        validate_first = True
+    else:
+        raise Unsupported("set_config: unrecognised structure")
+
+    # --- config_context: where set_config is called relative to try, and how the old config is restored
+    tries = [n for n in ast.walk(cc) if isinstance(n, ast.Try)]
+    if len(tries) != 1 or not tries[0].finalbody or tries[0].handlers:
+        raise Unsupported("config_context: expected one try/finally")
+    tr = tries[0]
+    if not any(isinstance(n, ast.Yield) for st in tr.body for n in ast.walk(st)):
+        raise Unsupported("config_context: yield is not inside try")
+    calls_in_try = any(is_call_to(n, "set_config") for st in tr.body for n in ast.walk(st))
+    calls_anywhere = sum(1 for n in ast.walk(cc) if is_call_to(n, "set_config"))
+    if calls_anywhere != 1:
+        raise Unsupported("config_context: expected exactly one set_config call")
+    saves_old = any(isinstance(n, ast.Assign) and is_call_to(n.value, "get_config") and not n.value.args
+                    for n in cc.body)
+    if not saves_old:
+        raise Unsupported("config_context: old configuration is not saved with get_config()")
+    fin_calls = [n for st in tr.finalbody for n in ast.walk(st)
+                 if isinstance(n, ast.Call) and isinstance(n.func, ast.Attribute) and _is_global_cfg(n.func.value)]
+    names = [c.func.attr for c in fin_calls]
+    if names == ["clear", "update"]:
+        restore_clear = True
+    elif names == ["update"]:
+        restore_clear = False
+    else:
+        raise Unsupported(f"config_context: finally block {names}")
+
+    # --- get_config(): hands out a copy or the live dict
+    rets = [n for n in ast.walk(gc) if isinstance(n, ast.Return) and n.value is not None]
+    whole = [r for r in rets if not isinstance(r.value, ast.Subscript)]
+    if len(whole) != 1:
+        raise Unsupported("get_config: return structure")
+    v = whole[0].value
+    if isinstance(v, ast.Call) and isinstance(v.func, ast.Attribute) and v.func.attr == "copy" and _is_global_cfg(v.func.value):
+        copies = True
+    elif isinstance(v, ast.Call) and isinstance(v.func, ast.Name) and v.func.id == "dict" and len(v.args) == 1 \
+            and _is_global_cfg(v.args[0]):
+        copies = True
+    elif _is_global_cfg(v):
+        copies = False
+    else:
+        raise Unsupported("get_config: returned expression")
+
+    # --- defaults of the standard options
+    defaults = None
+    for n in mod.body:
+        tgt = n.target if isinstance(n, ast.AnnAssign) else (n.targets[0] if isinstance(n, ast.Assign) else None)
+        if tgt is not None and _is_global_cfg(tgt) and isinstance(n.value, ast.Dict):
+            defaults = [(k.value, pyval_lit(val)) for k, val in zip(n.value.keys, n.value.values)]
+    if defaults is None:
+        raise Unsupported("config: _global_config literal not found")
+    b = lambda x: "true" if x else "false"  # noqa: E731
+    return ("-- GENERATED by harness/translate.py from /repo/src/tea_tasting/config.py — do not edit.\n"
+            "import TeaTasting.Basic.PyVal\n\nnamespace Gen\n\n"
+            f"-- config.set_config (line {sc.lineno}), config.config_context (line {cc.lineno}), "
+            f"config.get_config (line {gc.lineno})\n"
+            "def configImpl : ConfigImpl :=\n"
+            f"  {{ validateFirst := {b(validate_first)}, enterInTry := {b(calls_in_try)}, "
+            f"restoreClear := {b(restore_clear)}, getCopies := {b(copies)} }}\n\n"
+            "def configDefaults : List (String × PyVal) := [\n"
+            + ",\n".join(f"  (\"{k}\", {v})" for k, v in defaults) + "\n]\n\nend Gen\n")
 
 
 def write_if_changed(path: Path, text: str) -> bool:
